@@ -7,6 +7,7 @@ from abc import ABC, abstractmethod
 from collections.abc import MutableSequence, Sequence
 from enum import Enum
 from io import BytesIO
+from pickle import encode_long
 from pickletools import OpcodeInfo, genops, opcodes
 from typing import (
     Any,
@@ -1686,12 +1687,22 @@ class Long1(ConstantInt):
     signed = True
     priority = BinInt.priority + 1
 
+    def encode_body(self) -> bytes:
+        # a one-byte length followed by that many bytes of little-endian two's complement
+        data = encode_long(self.arg)
+        return struct.pack("<B", len(data)) + data
+
 
 class Long4(ConstantInt):
     name = "LONG4"
     num_bytes = 4
     signed = True
     priority = Long1.priority + 1
+
+    def encode_body(self) -> bytes:
+        # a four-byte length followed by that many bytes of little-endian two's complement
+        data = encode_long(self.arg)
+        return struct.pack("<i", len(data)) + data
 
 
 class Int(ConstantOpcode):
